@@ -197,11 +197,14 @@ def t2(rep, w):
     # there without consuming anything (the end of the input cannot be consumed) comes back for ever
     sorg = origins(st)
     bad_eof = []
+    # (an error token at the end of the input is fine when the path also takes something off one of the scanner's own stacks - the open
+    # interpolation it complains about: that cannot repeat for ever)
+    shrinking = {bi for bi, t in st.calls() if strip_generics(callee_name(t) or '').rsplit('::', 1)[-1] in ('pop', 'truncate', 'clear', 'pop_back') and 'Vec' in (callee_name(t) or '')}
     for e in eof:
         seen, todo = set(), [e]
         while todo:
             b = todo.pop()
-            if b in seen or b in adv:
+            if b in seen or b in adv or b in shrinking:
                 continue
             seen.add(b)
             t = st.blocks[b]['t']
